@@ -82,6 +82,14 @@ type blend struct {
 
 var farAway = at(circle(0.5), 40, 40)
 
+// slice2 is the section of a sphere by the plane through its centre, with the slice origin at the centre (which
+// has an in-plane component): the circle of radius 1.2, in slice coordinates centred on (0,0).
+func slice2() sdf.SDF2 {
+	sp, _ := sdf.Sphere3D(1.2)
+	s3 := sdf.Transform3D(sp, sdf.Translate3d(v3.Vec{X: 1, Y: 0.5}))
+	return sdf.Slice2D(s3, v3.Vec{X: 1, Y: 0.5}, v3.Vec{Z: 1})
+}
+
 func main() {
 	c := vlib.Start("C16")
 	var states, trans, nontriv int64
@@ -94,7 +102,7 @@ func main() {
 	var ivs []iv
 	R := vlib.Pick(c, 2, 3) // thorough: integer boxes in [-3,3]^d, half-integer points in [-4,4]^d
 	for lo := -R; lo <= R; lo++ {
-		for hi := lo + 1; hi <= R; hi++ {
+		for hi := lo; hi <= R; hi++ { // hi == lo: a box without extent along that axis (a segment / a point)
 			ivs = append(ivs, iv{float64(lo), float64(hi)})
 		}
 	}
@@ -103,7 +111,7 @@ func main() {
 		pts = append(pts, float64(i)/2)
 	}
 	// quarter offsets shift the whole configuration off the integers (still dyadic: exact)
-	offs := vlib.Pick(c, []float64{0, 0.25}, []float64{0, 0.25, -1024.125, 3e6})
+	offs := []float64{0, 0.25, -1024.125, 3e6}
 	for _, o := range offs {
 		for _, ix := range ivs {
 			for _, iy := range ivs {
@@ -161,7 +169,7 @@ func main() {
 					ax, ay, az := axisMax(p.X, b.Min.X, b.Max.X), axisMax(p.Y, b.Min.Y, b.Max.Y), axisMax(p.Z, b.Min.Z, b.Max.Z)
 					wantMax := ax*ax + ay*ay + az*az
 					k := []byte{cls(p.X, b.Min.X, b.Max.X), cls(p.Y, b.Min.Y, b.Max.Y), cls(p.Z, b.Min.Z, b.Max.Z)}
-					if i < 200 {
+					if i%5 == 0 {
 						posClasses3.Add(string(k), 1)
 					}
 					n++
@@ -192,7 +200,7 @@ func main() {
 	// and with end points that are not exactly representable sums of each other (0.1, 0.2, 0.3, 1/3, ...): the
 	// answer is a comparison of end points, no arithmetic may blur a touching or barely overlapping pair
 	// (added after seed C16-9)
-	nd := []float64{0, 0.1, 0.2, 0.1 + 0.2, 0.3, 1.0 / 3, 2.0 / 3, 0.7, 1 - 1.0/3, 1, 1e-9, 1 + 1e-15, 1e15, 1e15 + 1, -0.1, -0.3}
+	nd := []float64{0, math.Copysign(0, -1), 5e-324, -5e-324, 0.1, 0.2, 0.1 + 0.2, 0.3, 1.0 / 3, 2.0 / 3, 0.7, 1 - 1.0/3, 1, 1e-9, 1 + 1e-15, 1e15, 1e15 + 1, -0.1, -0.3}
 	sort.Float64s(nd)
 	for i, lo := range nd {
 		for _, hi := range nd[i:] {
@@ -242,6 +250,29 @@ func main() {
 		{"fan3x50(b1.2x.3@1.6,0)", sdf.RotateUnion2D(at(mustBox(1.2, 0.3, 0), 1.6, 0), 3, sdf.Rotate2d(sdf.DtoR(50)))},
 		{"fan2x-70(c.25@2.25,0)", sdf.RotateUnion2D(at(circle(0.25), 2.25, 0), 2, sdf.Rotate2d(sdf.DtoR(-70)))},
 		{"array2x2(c.2)@-2.5,1", at(sdf.Array2D(circle(0.2), v2i.Vec{X: 2, Y: 2}, v2.Vec{X: 1, Y: 1.5}), -2.5, 1)},
+		// further constructors that work out a box of their own (all exact outside their solid)
+		{"rotcopy3(b1x.5@1.5,-1)", sdf.RotateCopy2D(at(mustBox(1, 0.5, 0), 1.5, -1), 3)},
+		{"slice(sphere r1.2 @(1,.5,0), origin (1,.5,0), n=z)", slice2()},
+		{"elongate(c.4,(-1.5,0))@0,2.2", at(sdf.Elongate2D(circle(0.4), v2.Vec{X: -1.5}), 0, 2.2)},
+		{"elongate(c.3,(.5,-1))@-2,-.5", at(sdf.Elongate2D(circle(0.3), v2.Vec{X: 0.5, Y: -1}), -2, -0.5)},
+		{"offset(b1x.6,.2)@2,1.5", at(sdf.Offset2D(mustBox(1, 0.6, 0), 0.2), 2, 1.5)},
+	}
+	// the pruning argument itself, operand by operand: a value is never smaller than the distance to the operand's
+	// own bounding box (for these exact operands: the solid lies inside its box), at every point of a 1/16 lattice
+	for _, o := range menu {
+		bb := o.s.BoundingBox()
+		states++
+		for i := -72; i <= 72 && o.s != nil; i++ {
+			for j := -72; j <= 72; j++ {
+				p := v2.Vec{X: float64(i) / 16, Y: float64(j) / 16}
+				trans++
+				if f, d := o.s.Evaluate(p), math.Sqrt(bb.MinMaxDist2(p)[0]); d > 0 && f < d-1e-9 {
+					c.Violation("Union2D|operand-value-below-the-distance-to-its-own-box", fmt.Sprintf("operand %s at %v: Evaluate %v, but its bounding box %v is %v away: the union would prune it wrongly", o.name, p, f, bb, d), map[string]any{"kind": "operand", "operand": o.name, "p": p, "box": bb})
+					i = 99
+					break
+				}
+			}
+		}
 	}
 	blends := []blend{{"min", nil}, {"PolyMin(1/8)", sdf.PolyMin(0.125)}, {"PolyMin(1/2)", sdf.PolyMin(0.5)},
 		{"PolyMin(2)", sdf.PolyMin(2)}, {"PolyMin(5)", sdf.PolyMin(5)}, {"RoundMin(1/2)", sdf.RoundMin(0.5)},
